@@ -44,6 +44,9 @@ pub(crate) struct CallFrame {
     /// beginning of the local stack
     pub stack_offset: u32,
     pub closure: *mut CaoLangClosure,
+    /// The object that holds `closure`, null if there is none. While the frame is active it may be
+    /// the only reference to the closure, so the collector treats it as a root.
+    pub closure_object: *mut CaoLangObject,
 }
 
 impl RuntimeData {
@@ -326,6 +329,30 @@ impl RuntimeData {
                         t.marker = GcMarker::Gray;
                         progress_tracker.push(t);
                     }
+                }
+            }
+        }
+        // closures of the active calls, and the upvalues that are still open
+        for frame in self.call_stack.iter() {
+            unsafe {
+                if let Some(t) = frame.closure_object.as_mut() {
+                    if matches!(t.marker, GcMarker::White) {
+                        t.marker = GcMarker::Gray;
+                        progress_tracker.push(t);
+                    }
+                }
+            }
+        }
+        unsafe {
+            let mut upvalue = self.open_upvalues;
+            while let Some(t) = upvalue.as_mut() {
+                upvalue = match t.as_upvalue() {
+                    Some(u) => u.next,
+                    None => std::ptr::null_mut(),
+                };
+                if matches!(t.marker, GcMarker::White) {
+                    t.marker = GcMarker::Gray;
+                    progress_tracker.push(t);
                 }
             }
         }
